@@ -161,3 +161,38 @@ Print Assumptions C02_code_iteration_bound.
 Print Assumptions C02_code_returns_last_x.
 Print Assumptions C02_code_early_stop_only_on_convergence.
 Print Assumptions C02_code_no_test_in_first_iteration.
+
+(* ---- the ADMM ENTRY POINT AS TRANSLATED (Gen/G_admm_front.v; facts: Proofs/GenEquivGU.v): the solver gets the caller's covariance and
+   an argument bundle built from exactly the caller's parameters - absolute tolerance in the absolute slot, relative in the relative
+   slot - and its answer is returned wrapped and otherwise untouched ---- *)
+From Ticc Require Import Gen.PySkel Gen.G_admm_front Proofs.GenEquivGU.
+Section SkelGU02.
+  Local Open Scope string_scope.
+  Variable V : Type.
+  Variable vnone : V.
+  Variable vint : Z -> V.
+  Variable as_int : V -> option Z.
+  Variable veq : V -> V -> bool.
+  Variable getattr : V -> string -> V.
+  Variable truthy : V -> bool.
+  Variable is_none : V -> bool.
+  Variables vtrue vfalse : V.
+  Variable as_list : V -> list V.
+  Variable vglobal : string -> V.
+  Variable oracle : list (event V) -> string -> list V -> res V.
+  Theorem C02_code_admm_entry
+      (empirical_covariance sparsity_weight window_size num_data_series rho rho_update max_iterations
+       absolute_tolerance relative_tolerance verbose r : V) (log log' : list (event V)) :
+    g_admm_optimize_theta V oracle empirical_covariance sparsity_weight window_size num_data_series rho rho_update
+                          max_iterations absolute_tolerance relative_tolerance verbose log = (Ret r, log') ->
+    exists args theta,
+      let e_args := Ev f_admm_args [window_size; num_data_series; rho; rho_update; sparsity_weight;
+                                    absolute_tolerance; relative_tolerance; max_iterations; verbose] in
+      log' = (log ++ [e_args; Ev f_run_admm [args; empirical_covariance]; Ev f_admm_result [theta]])%list /\
+      oracle log f_admm_args [window_size; num_data_series; rho; rho_update; sparsity_weight;
+                              absolute_tolerance; relative_tolerance; max_iterations; verbose] = Ret args /\
+      oracle (log ++ [e_args]) f_run_admm [args; empirical_covariance] = Ret theta /\
+      oracle (log ++ [e_args; Ev f_run_admm [args; empirical_covariance]]) f_admm_result [theta] = Ret r.
+  Proof. intros; eapply admm_front_returns; eassumption. Qed.
+End SkelGU02.
+Print Assumptions C02_code_admm_entry.
